@@ -46,7 +46,7 @@ type pres struct {
 }
 
 func decPRes(tok string) []pres {
-	if tok == "-" || tok == "nil" || tok == "echo" {
+	if tok == "-" || tok == "nil" || tok == "echo" || tok == "err" {
 		return nil
 	}
 	var out []pres
@@ -81,6 +81,7 @@ func encPRes(l []pres) string {
 // watched resource the generator is handed, so that the response shows what was asked for.
 type script struct {
 	delta          bool // the generator also implements XdsDeltaResourceGenerator
+	fails          bool // the generator returns an error
 	echo           bool
 	resNil, delNil bool
 	res            []pres
@@ -93,6 +94,13 @@ var defaultScript = script{echo: true, delNil: true}
 type pcall struct {
 	short string
 	names []string // sorted
+	// what the generator was told besides the watched resource: req.Delta and req.Forced
+	sub, unsub, init []string
+	forced           bool
+}
+
+func (c pcall) info() string {
+	return "{+" + wire.EncSet(c.sub) + ";-" + wire.EncSet(c.unsub) + ";i=" + wire.EncSet(c.init) + ";f=" + wire.B(c.forced) + "}"
 }
 
 type presp struct {
@@ -117,6 +125,7 @@ type procSys struct {
 	// response whose send failed
 	delivered map[string][]string
 	failed    map[string]string
+	lastErr   error // what the handler of the last op returned
 	// every nonce the server has put into a response on this stream, in order (delivered or not)
 	nonces    []string
 	needsPush bool
@@ -142,9 +151,15 @@ func toRes(l []pres, isNil bool) model.Resources {
 	return out
 }
 
-func (g recGen) answer(w *model.WatchedResource) script {
+func (g recGen) answer(w *model.WatchedResource, req *model.PushRequest) script {
 	names := sets.SortedList(w.ResourceNames)
-	g.sys.calls = append(g.sys.calls, pcall{g.short, names})
+	c := pcall{short: g.short, names: names, forced: req.Forced}
+	c.sub, c.unsub = sets.SortedList(req.Delta.Subscribed), sets.SortedList(req.Delta.Unsubscribed)
+	for k := range req.Delta.InitialResourceVersions {
+		c.init = append(c.init, k)
+	}
+	sort.Strings(c.init)
+	g.sys.calls = append(g.sys.calls, c)
 	sc, ok := g.sys.scripts[g.short]
 	if !ok {
 		sc = defaultScript
@@ -159,17 +174,23 @@ func (g recGen) answer(w *model.WatchedResource) script {
 	return sc
 }
 
-func (g recGen) Generate(_ *model.Proxy, w *model.WatchedResource, _ *model.PushRequest) (model.Resources, model.XdsLogDetails, error) {
-	sc := g.answer(w)
+func (g recGen) Generate(_ *model.Proxy, w *model.WatchedResource, req *model.PushRequest) (model.Resources, model.XdsLogDetails, error) {
+	sc := g.answer(w, req)
+	if sc.fails {
+		return nil, model.DefaultXdsLogDetails, errors.New("generator failed")
+	}
 	return toRes(sc.res, sc.resNil), model.XdsLogDetails{Incremental: sc.inc}, nil
 }
 
 type recDeltaGen struct{ recGen }
 
-func (g recDeltaGen) GenerateDeltas(_ *model.Proxy, _ *model.PushRequest, w *model.WatchedResource) (
+func (g recDeltaGen) GenerateDeltas(_ *model.Proxy, req *model.PushRequest, w *model.WatchedResource) (
 	model.Resources, model.DeletedResources, model.XdsLogDetails, bool, error,
 ) {
-	sc := g.answer(w)
+	sc := g.answer(w, req)
+	if sc.fails {
+		return nil, nil, model.DefaultXdsLogDetails, false, errors.New("generator failed")
+	}
 	var del model.DeletedResources
 	if !sc.delNil {
 		del = append(model.DeletedResources{}, sc.deleted...)
@@ -260,7 +281,8 @@ func newProcSys(delta, grpc bool) *procSys {
 
 func (p *procSys) setScript(f []string) {
 	// out <T> <plain|delta> <echo|nil|res list> <nil|deleted list> <usedDelta> <incremental>
-	sc := script{delta: f[2] != "plain", echo: f[3] == "echo", resNil: f[3] == "nil", res: decPRes(f[3]), delNil: true, inc: f[6] == "1"}
+	sc := script{delta: f[2] != "plain", echo: f[3] == "echo", resNil: f[3] == "nil" || f[3] == "err", fails: f[3] == "err",
+		res: decPRes(f[3]), delNil: true, inc: f[6] == "1"}
 	if sc.delta {
 		sc.delNil = f[4] == "nil"
 		if !sc.delNil {
@@ -303,12 +325,20 @@ func (p *procSys) resolve(short, k string) string {
 	return ""
 }
 
-func (p *procSys) pushRequest(forced bool) *model.PushRequest {
+// pushRequest: push / dpush = an Endpoints-only event (computeProxyState skipped), fpush = the same Forced, apush = an
+// AuthorizationPolicy event: not Endpoints-only, so pushConnection[Delta] runs the real computeProxyState first (on
+// this bare server it refreshes LastPushContext / LastPushTime only: no service or sidecar-scope recomputation).
+func (p *procSys) pushRequest(op string) *model.PushRequest {
+	op = strings.TrimPrefix(op, "d")
+	k := kind.Endpoints
+	if op == "apush" {
+		k = kind.AuthorizationPolicy
+	}
 	return &model.PushRequest{
 		Push:           p.push,
-		ConfigsUpdated: sets.New(model.ConfigKey{Kind: kind.Endpoints, Name: "x", Namespace: "y"}),
+		ConfigsUpdated: sets.New(model.ConfigKey{Kind: k, Name: "x", Namespace: "y"}),
 		Reason:         model.NewReasonStats(model.EndpointUpdate),
-		Forced:         forced,
+		Forced:         op == "fpush",
 	}
 }
 
@@ -320,7 +350,7 @@ func showCalls(cs []pcall) string {
 	sort.SliceStable(c, func(i, j int) bool { return wireRank[c[i].short] < wireRank[c[j].short] })
 	parts := make([]string, len(c))
 	for i, x := range c {
-		parts[i] = x.short + ":" + wire.EncSet(x.names)
+		parts[i] = x.short + ":" + wire.EncSet(x.names) + x.info()
 	}
 	return strings.Join(parts, ";")
 }
@@ -362,7 +392,7 @@ func (p *procSys) showState() string {
 }
 
 func (p *procSys) show() string {
-	return fmt.Sprintf("sent=%s calls=%s | %s", showResps(p.got), showCalls(p.calls), p.showState())
+	return fmt.Sprintf("sent=%s calls=%s err=%s | %s", showResps(p.got), showCalls(p.calls), wire.B(p.lastErr != nil), p.showState())
 }
 
 // procRunner holds the system of the current case.
@@ -395,7 +425,7 @@ func (pr *procRunner) apply(f []string) (out string) {
 			TypeUrl: typeURL[f[1]], ResourceNames: wire.DecList(f[2]), ResponseNonce: p.resolve(f[1], f[3]),
 			ErrorDetail: errDetail(f[4]),
 		}
-		_ = pxds.VerifC03ProcessRequest(p.srv, req, p.con)
+		p.lastErr = pxds.VerifC03ProcessRequest(p.srv, req, p.con)
 		return p.show()
 	case "needs":
 		p.needsPush = f[1] == "1"
@@ -404,8 +434,8 @@ func (pr *procRunner) apply(f []string) (out string) {
 		// a new push context version: the prefix of the nonces that follow
 		p.push.PushVersion = wire.Dec(f[1])
 		return "ok"
-	case "push", "fpush":
-		_ = pxds.VerifC03PushConnection(p.srv, p.con, p.pushRequest(f[0] == "fpush"))
+	case "push", "fpush", "apush":
+		p.lastErr = pxds.VerifC03PushConnection(p.srv, p.con, p.pushRequest(f[0]))
 		return p.show()
 	case "dreq":
 		req := &discovery.DeltaDiscoveryRequest{
@@ -419,10 +449,10 @@ func (pr *procRunner) apply(f []string) (out string) {
 				req.InitialResourceVersions[n] = "retained"
 			}
 		}
-		_ = pxds.VerifC03ProcessDeltaRequest(p.srv, req, p.con)
+		p.lastErr = pxds.VerifC03ProcessDeltaRequest(p.srv, req, p.con)
 		return p.show()
-	case "dpush", "dfpush":
-		_ = pxds.VerifC03PushConnectionDelta(p.srv, p.con, p.pushRequest(f[0] == "dfpush"))
+	case "dpush", "dfpush", "dapush":
+		p.lastErr = pxds.VerifC03PushConnectionDelta(p.srv, p.con, p.pushRequest(f[0]))
 		return p.show()
 	}
 	return "bad-op"
@@ -430,13 +460,17 @@ func (pr *procRunner) apply(f []string) (out string) {
 
 // ---------------------------------------------------------------- generator
 
-func genScriptLine(r *wire.Rng, out *wire.Out, t string, delta bool) {
+func genScriptLine(r *wire.Rng, out *wire.Out, t string, delta, allowErr bool) {
 	k := "plain"
 	if delta && r.Chance(1, 2) {
 		k = "delta"
 	}
 	resTok := "echo"
-	switch r.Intn(6) {
+	switch r.Intn(7) {
+	case 6:
+		if allowErr && r.Chance(1, 2) {
+			resTok = "err" // the generator fails
+		}
 	case 0:
 		resTok = "nil"
 	case 1, 2:
@@ -468,7 +502,7 @@ func genProc(stream string, seed uint64, n int, outp string) {
 	}
 	for c := 0; c < n; c++ {
 		r := root.Fork()
-		if !delta && r.Chance(1, 8) {
+		if r.Chance(1, 8) {
 			out.Line("case", strconv.Itoa(c), stream, "grpc") // a proxyless gRPC client
 		} else {
 			out.Line("case", strconv.Itoa(c), stream)
@@ -486,7 +520,7 @@ func genProc(stream string, seed uint64, n int, outp string) {
 		}
 		for _, t := range types {
 			if r.Chance(1, 3) {
-				genScriptLine(r, out, t, delta)
+				genScriptLine(r, out, t, delta, !neverFails)
 			}
 		}
 		pickNonce := func() string {
@@ -546,6 +580,8 @@ func genProc(stream string, seed uint64, n int, outp string) {
 				op := "push"
 				if r.Chance(1, 3) {
 					op = "fpush" // Forced
+				} else if r.Chance(1, 4) {
+					op = "apush" // not Endpoints-only: computeProxyState runs
 				}
 				if delta {
 					op = "d" + op
@@ -561,7 +597,7 @@ func genProc(stream string, seed uint64, n int, outp string) {
 					out.Line("fail", wire.B(r.Chance(1, 2)))
 				}
 			default:
-				genScriptLine(r, out, t, delta)
+				genScriptLine(r, out, t, delta, !neverFails)
 			}
 		}
 	}
@@ -599,30 +635,58 @@ func (o *procOracle) genAnswers(t string, delta bool) bool {
 
 func sameNames(a []string, b sets.String) bool { return sets.New(a...).Equals(b) }
 
-// checkAnswer: an answered request must make exactly the expected generator calls, and put a response on the
-// stream exactly for the calls whose generator had something, until a send fails.
-func (o *procOracle) checkAnswer(clause string, want []pcall, line string) {
+// checkAnswer: `cands` are the generator calls the handler has to make, in order, if nothing goes wrong.  A failing
+// generator or a failed send ends the handler there: the calls after it are not made and the handler returns the
+// error.  A response goes out exactly for the calls whose generator had something.  Each kind of deviation has its
+// own clause (the fingerprint names the defect, not the class of the request).
+func (o *procOracle) checkAnswer(clause string, cands []pcall, line string) {
 	p := o.pr.p
-	// ECDS and NDS are pushed in Go map order: compare in the canonical order
-	calls := append([]pcall(nil), p.calls...)
-	sort.SliceStable(calls, func(i, j int) bool { return wireRank[calls[i].short] < wireRank[calls[j].short] })
-	bad := len(calls) != len(want)
-	for i := 0; !bad && i < len(want); i++ {
-		bad = calls[i].short != want[i].short || !sameNames(calls[i].names, sets.New(want[i].names...))
-	}
-	if bad {
-		o.fail(clause, fmt.Sprintf("generator calls %s, want %s :: %s", showCalls(p.calls), showCalls(want), line))
-		return
-	}
+	var want []pcall
 	var wantSent []string
-	for _, c := range want {
+	wantErr := false
+	for _, c := range cands {
+		want = append(want, c)
+		if o.scriptOf(c.short).fails {
+			wantErr = true
+			break
+		}
 		if !o.genAnswers(c.short, p.delta) {
 			continue
 		}
 		if p.fail {
+			wantErr = true
 			break
 		}
 		wantSent = append(wantSent, c.short)
+	}
+	// ECDS and NDS are pushed in Go map order: compare in the canonical order
+	calls := append([]pcall(nil), p.calls...)
+	sort.SliceStable(calls, func(i, j int) bool { return wireRank[calls[i].short] < wireRank[calls[j].short] })
+	detail := fmt.Sprintf("generator calls %s, want %s :: %s", showCalls(calls), showCalls(want), line)
+	if len(calls) > 0 && len(want) > 0 && (calls[0].short != want[0].short || !sameNames(calls[0].names, sets.New(want[0].names...))) {
+		o.fail(clause, detail)
+		return
+	}
+	if len(calls) != len(want) {
+		if len(want) > 0 && want[0].short == "CDS" && p.delta && clause != "push-generates-the-whole-subscription" {
+			o.fail("cds-answer-followed-by-the-forced-eds-push", detail)
+		} else if len(calls) == 0 {
+			o.fail(clause, detail)
+		} else {
+			o.fail("exactly-the-due-generator-calls", detail)
+		}
+		return
+	}
+	for i := range want {
+		if calls[i].short != want[i].short || !sameNames(calls[i].names, sets.New(want[i].names...)) {
+			o.fail("exactly-the-due-generator-calls", detail)
+			return
+		}
+		if !sameNames(calls[i].sub, sets.New(want[i].sub...)) || !sameNames(calls[i].unsub, sets.New(want[i].unsub...)) ||
+			!sameNames(calls[i].init, sets.New(want[i].init...)) || calls[i].forced != want[i].forced {
+			o.fail("generator-is-told-the-subscription-change(req.Delta,Forced)", detail)
+			return
+		}
 	}
 	var got []string
 	for _, w := range p.got {
@@ -633,7 +697,10 @@ func (o *procOracle) checkAnswer(clause string, want []pcall, line string) {
 	}
 	sort.SliceStable(got, func(i, j int) bool { return wireRank[got[i]] < wireRank[got[j]] })
 	if strings.Join(got, ",") != strings.Join(wantSent, ",") {
-		o.fail(clause, fmt.Sprintf("responses %v, want %v :: %s", got, wantSent, line))
+		o.fail("response-sent-iff-the-generator-answered-and-the-stream-is-up", fmt.Sprintf("responses %v, want %v :: %s", got, wantSent, line))
+	}
+	if (p.lastErr != nil) != wantErr {
+		o.fail("handler-returns-the-error-of-a-failed-generator-or-send", fmt.Sprintf("returned error=%v, want %v :: %s", p.lastErr != nil, wantErr, line))
 	}
 	// echo generators: the response carries exactly the names the generator was asked for
 	for _, w := range p.got {
@@ -647,7 +714,7 @@ func (o *procOracle) checkAnswer(clause string, want []pcall, line string) {
 					rn = append(rn, r.name)
 				}
 				if !sameNames(rn, sets.New(c.names...)) {
-					o.fail(clause, fmt.Sprintf("response of %s carries %v, generator asked for %v :: %s", w.short, rn, c.names, line))
+					o.fail("response-carries-what-was-generated", fmt.Sprintf("response of %s carries %v, generator asked for %v :: %s", w.short, rn, c.names, line))
 				}
 			}
 		}
@@ -660,6 +727,8 @@ func (o *procOracle) checkSilent(clause, line string) {
 		o.fail(clause, "a response was sent: "+line)
 	} else if len(p.calls) > 0 {
 		o.fail(clause, "a generator was called: "+line)
+	} else if p.lastErr != nil {
+		o.fail(clause, "the handler returned an error: "+line)
 	}
 }
 
@@ -705,11 +774,14 @@ func (o *procOracle) sotwReq(f []string, line string) {
 	switch {
 	case !e.respond:
 		o.checkSilent(e.clause, line)
-	case e.full || o.pr.p.grpc:
-		// a proxyless gRPC client is never narrowed: it expects its whole subscription in every response
-		o.checkAnswer(e.clause, []pcall{{t, names}}, line)
+	case e.full:
+		o.checkAnswer(e.clause, []pcall{{short: t, names: names, forced: true}}, line)
+	case o.pr.p.grpc:
+		// a proxyless gRPC client is never narrowed: it expects its whole subscription in every response (the
+		// generator is still told what was added)
+		o.checkAnswer(e.clause, []pcall{{short: t, names: names, sub: e.asked, forced: true}}, line)
 	default:
-		o.checkAnswer(e.clause, []pcall{{t, e.asked}}, line)
+		o.checkAnswer(e.clause, []pcall{{short: t, names: e.asked, sub: e.asked, forced: true}}, line)
 	}
 	// the last sentence of the property, keyed on the history only: the request echoes the nonce of the last response
 	// of this type that reached the client (kind `cur`: what a conformant client sends; empty when none did), so it is
@@ -748,10 +820,7 @@ func (o *procOracle) pushAll(f []string, line string) {
 		if !h.exists {
 			continue
 		}
-		want = append(want, pcall{t, sets.SortedList(h.names)})
-		if o.genAnswers(t, p.delta) && p.fail {
-			break
-		}
+		want = append(want, pcall{short: t, names: sets.SortedList(h.names), forced: strings.HasSuffix(f[0], "fpush")})
 	}
 	o.checkAnswer("push-generates-the-whole-subscription", want, line)
 	o.after(line)
@@ -775,11 +844,10 @@ func (o *procOracle) deltaReq(f []string, line string) {
 		if e.full {
 			asked = sets.SortedList(o.get(t).names)
 		}
-		want := []pcall{{t, asked}}
-		firstFailed := o.genAnswers(t, true) && p.fail
-		if t == "CDS" && !firstFailed && o.get("EDS").exists {
+		want := []pcall{{short: t, names: asked, sub: e.dsub, unsub: e.dunsub, init: e.dinit, forced: true}}
+		if t == "CDS" && o.get("EDS").exists {
 			// the server owes EDS after CDS (forceEDSPush): the whole EDS subscription
-			want = append(want, pcall{"EDS", sets.SortedList(o.get("EDS").names)})
+			want = append(want, pcall{short: "EDS", names: sets.SortedList(o.get("EDS").names), forced: true})
 		}
 		o.checkAnswer(e.clause, want, line)
 	}
@@ -814,7 +882,7 @@ func oracleProc(stream, in, outp string) {
 			o.sotwReq(f, line)
 		case "dreq":
 			o.deltaReq(f, line)
-		case "push", "dpush", "fpush", "dfpush":
+		case "push", "dpush", "fpush", "dfpush", "apush", "dapush":
 			o.pushAll(f, line)
 		default:
 			if o.pr.apply(f) == "crash" {
